@@ -1,7 +1,7 @@
 (* C06 -- Generation is deterministic: same inputs give byte-identical trees everywhere. *)
 From Coq Require Import String List Bool Permutation.
 From KV Require Import Lib.Str Lib.ODict Model.PreserveCore Model.Preserve Model.Inventory Gen.Inventory Gen.Templates Gen.Tags
-                       Proofs.PreserveTree Proofs.PreserveTop Proofs.DeterminismProofs.
+                       Proofs.PreserveTree Proofs.PreserveTop Proofs.DeterminismProofs Proofs.SortedSet Gen.SetOrder.
 Import ListNotations.
 Open Scope string_scope.
 
@@ -34,6 +34,22 @@ Theorem C06_outdir_spelling_irrelevant : forall o1 o2 old (fresh : cmodel),
   regen o1 old fresh = regen o2 old fresh.
 Proof. exact regen_outdir_independent. Qed.
 Print Assumptions C06_outdir_spelling_irrelevant.
+
+(* hash order: the only hash-ordered containers whose iteration reaches the output are the sets of type / namespace names
+   built by the functions listed in Gen/SetOrder.v; the translator refuses unless every one of them hands its set out through
+   sorted(...) (and unless no other function of the module builds a set).  Two iterations of one set are permutations of each
+   other, and sorting a permutation gives the same list: *)
+Theorem C06_hash_order_irrelevant : forall l1 l2 : list string,
+  Permutation l1 l2 -> py_sorted l1 = py_sorted l2.
+Proof. exact sorted_independent_of_iteration_order. Qed.
+Print Assumptions C06_hash_order_irrelevant.
+
+Theorem C06_sorted_set_functions :
+  sorted_set_functions = ["Class.GetNotForwardDeclarableNonPrimitiveTypesLinkedToThis";
+                          "Class.GetForwardDeclarableNonPrimitiveTypesLinkedToThis";
+                          "ClassDiagram.GetNamespaceDependencies"].
+Proof. exact sorted_set_functions_are. Qed.
+Print Assumptions C06_sorted_set_functions.
 
 Definition tagl : string := bs [35;32;123;123;123;85;83;69;82;95;88;10].
 Definition ex_fresh : cmodel := [("a/F.py", [bs [120;10]]); ("G.py", [tagl; tagl])].
